@@ -7,6 +7,14 @@ from . import gen
 from .gen import BLANK, ABSENT, UNKNOWN
 
 
+LATIN1_DECL = '<?xml version="1.0" encoding="ISO-8859-1"?>'
+
+
+def to_bytes(text):
+    """Bytes a document is stored as (file / S3 object): its declared encoding, UTF-8 by default."""
+    return text.encode('latin-1') if text.startswith(LATIN1_DECL) else text.encode('utf-8')
+
+
 # ------------------------------------------------------------------ fake S3
 class _Body:
     def __init__(self, data):
@@ -118,7 +126,7 @@ class FakeS3:
         self.lists = []
 
     def put(self, bucket, key, text):
-        self.objects[(bucket, key)] = text.encode('utf-8') if isinstance(text, str) else text
+        self.objects[(bucket, key)] = to_bytes(text) if isinstance(text, str) else text
 
     def install(self, ns):
         """Put the fakes wherever the library may reach S3 from: the lazily built slots of utils.s3.s3
@@ -158,6 +166,10 @@ def pool_messages():
         'move-A-end': lambda n: g.msg_story_move('A', BLANK, msg_id=n),
         'roReplace': lambda n: g.msg_ro_replace([g.story_xml('A', 1, body=(('p', 'plain'), ('i', 'a'), ('i', 'c'))), st('G'), g.story_xml('C', 1)],
                                                'after', g.meta_elems(1, variant=1), msg_id=n),
+        # a document with a non-UTF-8 encoding declaration and non-ASCII text: as a str its characters are what
+        # they are; as a file / S3 object it is stored in the declared encoding (see to_bytes)
+        'append-declared-latin1': lambda n: LATIN1_DECL + g.msg_story_append([g.story_xml('D', 0)], msg_id=n).replace(
+            'D slug v0', 'D caf\u00e9 \u00a35 slug'),
         'ready': lambda n: g.msg_ready_to_air(msg_id=n),
         'delete-unknown(warn)': lambda n: g.msg_story_delete([UNKNOWN], msg_id=n),
         'eamove-A,unknown(fail@2)': lambda n: g.msg_ea('MOVE', 'C', sources=[g.id_tag('storyID', 'A'), g.id_tag('storyID', UNKNOWN)], msg_id=n),
